@@ -30,10 +30,11 @@ def _witness(pid, record):
 
 
 def make_replay(pid, record, unit_results, only_if_found=False, need_prop=None):
-    os.makedirs(os.path.join(VERIF, "replays"), exist_ok=True)
+    rdir = os.environ.get("VERIF_REPLAY_DIR") or os.path.join(VERIF, "replays")
+    os.makedirs(rdir, exist_ok=True)
     key = "%s|%s|%s" % (pid, record["obligation"], record["function"])
     h = hashlib.sha1(key.encode()).hexdigest()[:10]
-    path = os.path.join(VERIF, "replays", "%s-%s.json" % (pid, h))
+    path = os.path.join(rdir, "%s-%s.json" % (pid, h))
     w = _witness(pid, record)
     if need_prop and w and w.get("found"):
         props = [x.strip() for x in str(w.get("props", "")).split(",") if x.strip()]
